@@ -1,8 +1,11 @@
 /-
-C13 — helper lemmas about the trie model (generic in the 17-letter alphabet).
+C13 — helper lemmas about the trie model: specification-level lookup, prefix compatibility,
+well-formedness, and the basic facts about `splitCommon`.
 -/
 import YouVerif.C13.Model
 namespace YouVerif.C13
+
+/-! ### splitCommon -/
 
 theorem splitCommon_spec (a b : List Nib) :
     a = (splitCommon a b).1 ++ (splitCommon a b).2.1 ∧ b = (splitCommon a b).1 ++ (splitCommon a b).2.2 := by
@@ -19,5 +22,133 @@ theorem splitCommon_spec (a b : List Nib) :
         simp only [List.cons_append, List.cons.injEq, true_and]
         exact this
       · simp
+
+theorem splitCommon_eq {a b p a' b' : List Nib} (h : splitCommon a b = (p, a', b')) :
+    a = p ++ a' ∧ b = p ++ b' := by
+  have := splitCommon_spec a b
+  rw [h] at this
+  exact this
+
+theorem splitCommon_heads {a b p : List Nib} {x y : Nib} {xs ys : List Nib}
+    (h : splitCommon a b = (p, x :: xs, y :: ys)) : x ≠ y := by
+  induction a generalizing b p with
+  | nil => simp [splitCommon] at h
+  | cons a0 as ih =>
+    cases b with
+    | nil => simp [splitCommon] at h
+    | cons b0 bs =>
+      simp only [splitCommon] at h
+      split at h
+      · simp only [Prod.mk.injEq] at h
+        obtain ⟨_, h2, h3⟩ := h
+        exact ih (p := (splitCommon as bs).1) (by rw [← h2, ← h3])
+      · simp only [Prod.mk.injEq, List.cons.injEq] at h
+        obtain ⟨_, ⟨hx, _⟩, ⟨hy, _⟩⟩ := h
+        subst hx hy; assumption
+
+theorem splitCommon_append (k r : List Nib) : splitCommon (k ++ r) k = (k, r, []) := by
+  induction k with
+  | nil => cases r <;> simp [splitCommon]
+  | cons x xs ih => simp [splitCommon, ih]
+
+theorem splitCommon_diverge (p : List Nib) {x y : Nib} (xs ys : List Nib) (h : x ≠ y) :
+    splitCommon (p ++ x :: xs) (p ++ y :: ys) = (p, x :: xs, y :: ys) := by
+  induction p with
+  | nil => simp [splitCommon, h]
+  | cons a as ih => simp [splitCommon, ih]
+
+theorem splitCommon_short (p : List Nib) (y : Nib) (ys : List Nib) :
+    splitCommon p (p ++ y :: ys) = (p, [], y :: ys) := by
+  induction p with
+  | nil => simp [splitCommon]
+  | cons a as ih => simp [splitCommon, ih]
+
+/-- the three ways a key can relate to a short node's key -/
+theorem splitCommon_cases (key k : List Nib) :
+    (∃ r, key = k ++ r ∧ splitCommon key k = (k, r, [])) ∨
+    (∃ p x xs y ys, key = p ++ x :: xs ∧ k = p ++ y :: ys ∧ x ≠ y ∧ splitCommon key k = (p, x :: xs, y :: ys)) ∨
+    (∃ y ys, k = key ++ y :: ys ∧ splitCommon key k = (key, [], y :: ys)) := by
+  rcases h : splitCommon key k with ⟨p, a', b'⟩
+  obtain ⟨h1, h2⟩ := splitCommon_eq h
+  cases b' with
+  | nil =>
+    left
+    simp at h2
+    subst h2
+    exact ⟨a', h1, rfl⟩
+  | cons y ys =>
+    cases a' with
+    | nil =>
+      right; right
+      simp at h1
+      subst h1
+      exact ⟨y, ys, h2, rfl⟩
+    | cons x xs =>
+      right; left
+      have hne := splitCommon_heads h
+      exact ⟨p, x, xs, y, ys, h1, h2, hne, rfl⟩
+
+/-! ### specification-level lookup: a value answers only the exhausted key -/
+
+def lookup : Node → List Nib → Option Val
+  | .empty, _ => none
+  | .value v, [] => some v
+  | .value _, _ :: _ => none
+  | .short k n, key =>
+    match splitCommon key k with
+    | (_, rest, []) => lookup n rest
+    | _ => none
+  | .full _, [] => none
+  | .full cs, i :: rest => lookup (cs i) rest
+
+@[simp] theorem lookup_empty (key) : lookup .empty key = none := by simp [lookup]
+@[simp] theorem lookup_value_nil (v) : lookup (.value v) [] = some v := by simp [lookup]
+@[simp] theorem lookup_value_cons (v x xs) : lookup (.value v) (x :: xs) = none := by simp [lookup]
+@[simp] theorem lookup_full_nil (cs) : lookup (.full cs) [] = none := by simp [lookup]
+@[simp] theorem lookup_full_cons (cs i r) : lookup (.full cs) (i :: r) = lookup (cs i) r := by simp [lookup]
+
+theorem lookup_value (v key) : lookup (.value v) key = if key = [] then some v else none := by
+  cases key <;> simp
+
+@[simp] theorem lookup_short_append (k n r) : lookup (.short k n) (k ++ r) = lookup n r := by
+  simp [lookup, splitCommon_append]
+
+theorem lookup_short_none {k n key} (h : ¬ k <+: key) : lookup (.short k n) key = none := by
+  rcases splitCommon_cases key k with ⟨r, hk, _⟩ | ⟨p, x, xs, y, ys, _, _, _, hs⟩ | ⟨y, ys, _, hs⟩
+  · exact absurd ⟨r, hk.symm⟩ h
+  · simp [lookup, hs]
+  · simp [lookup, hs]
+
+theorem lookup_short (k n key) :
+    lookup (.short k n) key = if k <+: key then lookup n (key.drop k.length) else none := by
+  by_cases h : k <+: key
+  · obtain ⟨r, rfl⟩ := h
+    simp
+  · simp [h, lookup_short_none h]
+
+theorem lookup_mkShort (k n key) : lookup (mkShort k n) key = lookup (.short k n) key := by
+  cases k with
+  | nil =>
+    have : lookup (.short [] n) ([] ++ key) = lookup n key := lookup_short_append [] n key
+    simpa [mkShort] using this.symm
+  | cons x xs => simp [mkShort]
+
+theorem lookup_short_short (k k2 n2 key) :
+    lookup (.short (k ++ k2) n2) key = lookup (.short k (.short k2 n2)) key := by
+  by_cases h : k <+: key
+  · obtain ⟨r, rfl⟩ := h
+    rw [lookup_short_append]
+    by_cases h2 : k2 <+: r
+    · obtain ⟨r2, rfl⟩ := h2
+      rw [← List.append_assoc, lookup_short_append, lookup_short_append]
+    · rw [lookup_short_none h2, lookup_short_none]
+      intro ⟨t, ht⟩
+      apply h2
+      rw [List.append_assoc] at ht
+      exact ⟨t, List.append_cancel_left ht⟩
+  · rw [lookup_short_none h, lookup_short_none]
+    intro ⟨t, ht⟩
+    apply h
+    exact ⟨k2 ++ t, by rw [← ht, List.append_assoc]⟩
 
 end YouVerif.C13
